@@ -9,7 +9,7 @@ import AmVerif.Model.Local
     `conflict := the register has more than one entry` (`hydrate_map/list/text` over `top_ops`).
   * `PatchAction` as in patches/patch.rs; `applyPatch` mirrors `hydrate::Value::apply` and
     `hydrate::{Map,List,Text}::apply` literally, errors (`HydrateError`) and panics included:
-    `todo!()` for `Mark`, `SequenceTree::{insert,remove}` out of range.
+    `SequenceTree::{insert,remove}` out of range (a `Mark` patch is accepted and ignored).
 -/
 namespace AmVerif.Crdt
 open AmVerif
@@ -281,7 +281,8 @@ def applyList (es : List (Bool × HView)) : PatchAction → HOut (List (Bool × 
     match es[i]? with
     | none => .err .index
     | some x => .ok (es.set i (true, x.2))
-  | .mark => .panic .todo
+  -- hydrated lists hold no marks: accepted, nothing changes
+  | .mark => .ok es
   | _ => .err .listOp
 
 /-- the `Insert` loop of `hydrate::Text::apply`: each value's text is spliced at the running index,
@@ -305,7 +306,8 @@ def applyText (e : Enc) (us : List Nat) : PatchAction → HOut (List Nat)
     | .err er => .err er
     | .panic p => .panic p
   | .deleteSeq i n => seqRemoveN us i n
-  | .mark => .panic .todo
+  -- hydrated text holds no marks: accepted, nothing changes
+  | .mark => .ok us
   | _ => .err .textOp
 
 /-- `hydrate::Value::apply`: walk the path, then apply at the addressed container -/
